@@ -262,6 +262,8 @@ def make_filter_classes():
                 raise RuntimeError('injected error')
             elif inj['how'] == 'stop_evt':
                 self.stop_evt.set()
+            elif inj['how'] in ('fail_send', 'fail_recv'):
+                world().sim.me().fail_next = inj['how'][5:]
 
         def _work(self, seq):
             w = world()
